@@ -17,6 +17,8 @@ Definition str (tag : Z) (fs : list tv) : tv :=
     ((fix go (i : Z) (l : list tv) : list (Z * tv) :=
         match l with [] => [] | x :: r => (i, x) :: go (i + 1) r end) 0 fs).
 Definition ints (l : list Z) : tv := arr (map TPrim l).
+Definition onone : tv := TNode O KOpt [].
+Definition osome (x : tv) : tv := TNode O KOpt [(0, x)].
 
 Definition check_prog (c : list stmt * list tv) : bool :=
   let '(prog, observed) := c in
